@@ -326,9 +326,10 @@ impl MappingInfo {
         for user in user_mapping_list {
             // Ignore any mappings that are wholly contained within
             // mappings in the mapping_info_ list.
+            // Caller-supplied extents may reach the top of the address space.
             if self.start_address >= user.mapping.start_address
-                && (self.start_address + self.size)
-                    <= (user.mapping.start_address + user.mapping.size)
+                && self.start_address.saturating_add(self.size)
+                    <= user.mapping.start_address.saturating_add(user.mapping.size)
             {
                 return true;
             }
